@@ -42,7 +42,7 @@ REPLAY_GROUPS = {
 PROPS = {
     "C01": dict(units=["u4_policy", "u19_async_policy", "u8_builder", "u8_builder_async", "u6_store", "u7_glue", "u19_async"], kani=[], replay=["policy", "cache", "async_cache"]),
     "C07": dict(units=["u4_policy", "u1_estimator", "u19_async_policy", "u8_builder", "u8_builder_async", "u6_store", "u7_glue", "u19_async"], kani=["sketch"], replay=["policy", "estimator", "cache", "async_cache"]),
-    "C13": dict(units=["u1_estimator", "u8_builder", "u8_builder_async"], kani=["bbloom", "sketch"], replay=["estimator", "cache"]),
+    "C13": dict(units=["u1_estimator", "u8_builder", "u8_builder_async", "u4_policy", "u19_async_policy"], kani=["bbloom", "sketch"], replay=["estimator", "policy", "cache"]),
     "C14": dict(units=["u1_estimator"], kani=["bbloom", "sketch"], replay=["estimator"]),
     "C20": dict(units=["u1_estimator", "u8_builder", "u7_glue", "u19_async", "u8_builder_async", "u6_store", "u4_policy", "u19_async_policy", "u5_ttl", "u9_metrics"], kani=["bbloom", "ttl", "sketch"], replay=["estimator", "cache", "async_cache"], probes=[("cache", "huge_cost_update_keeps_the_worker_alive")],
                 guards=[("cache", "extreme_configurations_work"), ("async_cache", "async_extreme_configurations_work")]),
